@@ -84,7 +84,8 @@ def heldAndLost (specs : List USpec) (results : List String) (hist : List HStep)
     match (specs[st.who]? : Option USpec) with
     | some (USpec.pop _ _) =>
       let r := results.getD st.who ""
-      let taken := st.removed.filter fun q => itemIsFor q a g
+      -- a probe that `PopMany` dropped as expired is held by nobody: it does not count as taken by this prober
+      let taken := st.removed.filter fun q => itemIsFor q a g && !q.expired st.clock
       !taken.isEmpty &&
         -- it died, or `PopMany` itself reported an error although the pop had taken effect (nothing of the batch was worked off)
         (r == "crashed" || r.startsWith "err" ||
@@ -163,12 +164,17 @@ def handle (args out : List String) : Verdict :=
         if heldAndLost m.specs results hist x.1 x.2 then s!"sig=holder-loss:{x.1}:goal{x.2}"
         else if consumedBeforeMark m.specs icalls hist x.1 x.2 then s!"sig=consumed-before-mark:{x.1}:goal{x.2}"
         else s!"sig=orphan-mark:{x.1}:goal{x.2}"
-      let hung := (results.any fun r => r == "hung" || r.startsWith "panic") || ieff.endsWith "HUNG"
-      let ok := orph.isEmpty && !hung
-      -- report the most severe signature first
-      let sigs := (classified.filter (·.startsWith "sig=orphan")) ++ (classified.filter (·.startsWith "sig=consumed")) ++
+      let panicked := results.any fun r => r.startsWith "panic"
+      let hung := (results.any fun r => r == "hung") || ieff.endsWith "HUNG"
+      let ok := orph.isEmpty && !hung && !panicked
+      -- report the most severe signature first: a case that panicked or did not terminate carries `sig=panic` /
+      -- `sig=not-terminated` BEFORE every orphan signature, and `bin/check` accepts a failing verdict as a known finding
+      -- only if EVERY signature in it is a known one — so a hung or panicked case is never excused by a `holder-loss`
+      -- orphan it happens to contain as well
+      let sigs := (cond panicked ["sig=panic"] []) ++ (cond hung ["sig=not-terminated"] []) ++
+        (classified.filter (·.startsWith "sig=orphan")) ++ (classified.filter (·.startsWith "sig=consumed")) ++
         (classified.filter (·.startsWith "sig=holder"))
-      verdict same ok (dinfo ++ " ".intercalate sigs ++ (cond hung " not-terminated" ""))
+      verdict same ok (" ".intercalate (sigs ++ (if dinfo.isEmpty then [] else [dinfo])))
     | _, _, _, _, _ => .bad "C16 parse"
   | _ => .bad "C16 shape"
 
